@@ -62,11 +62,12 @@ def main():
     ap = argparse.ArgumentParser()
     ap.add_argument("prop", nargs="?")
     ap.add_argument("--tier", default=os.environ.get("VERIF_TIER", "quick"), choices=["quick", "thorough"])
-    ap.add_argument("--jobs", type=int, default=int(os.environ.get("VERIF_JOBS", "4")))
+    ap.add_argument("--jobs", type=int, default=int(os.environ.get("VERIF_JOBS", "8")))
     ap.add_argument("--keep", action="store_true", help="keep the scratch overlay (debugging)")
     ap.add_argument("--only", action="append", help="run only this harness (debugging; no evidence written)")
     ap.add_argument("--replay", help="re-run a stored counterexample natively against /repo's current tree")
     ap.add_argument("--scratch", default=None)
+    ap.add_argument("--mod", action="append", help="with property DEBUG: run every harness of this module")
     args = ap.parse_args()
     seed = int(os.environ.get("VERIF_SEED", "0") or 0)
 
@@ -75,13 +76,20 @@ def main():
         rc = replay.replay_file(args.replay, scratch, keep=args.keep)
         sys.exit(rc)
 
+    if args.prop == "DEBUG":
+        specs.PROPS["DEBUG"] = dict(bounds="", not_covered=[])
+        for h in specs.HARNESSES:
+            if h["mod"] in (args.mod or []) or h["name"] in (args.only or []):
+                h["props"] = tuple(h["props"]) + ("DEBUG",)
+                h["tiers"]["DEBUG"] = "quick"
+        args.only = args.only or ["*"]
     if not args.prop or args.prop not in specs.PROPS:
         log("usage: run.py <property> ; known:", " ".join(sorted(specs.PROPS)))
         sys.exit(2)
     prop = args.prop
     P = specs.PROPS[prop]
     hs = [h for h in specs.harnesses_for(prop, args.tier)]
-    if args.only:
+    if args.only and args.only != ["*"]:
         hs = [h for h in hs if h["name"] in args.only]
     t_start = time.time()
     known = load_known()
@@ -123,8 +131,22 @@ def main():
         par = [h for h in hs if not h.get("alone")]
         alone = [h for h in hs if h.get("alone")]
 
+        import threading
+        budget = {"free": float(os.environ.get("VERIF_MEM_GB", "52"))}
+        cv = threading.Condition()
+
         def run1(h):
-            r = kani.run_harness(scratch, h, os.path.join(logs, f"{h['name']}.log"))
+            need = min(float(h.get("mem_gb", 12)), float(os.environ.get("VERIF_MEM_GB", "52")))
+            with cv:
+                while budget["free"] < need:
+                    cv.wait()
+                budget["free"] -= need
+            try:
+                r = kani.run_harness(scratch, h, os.path.join(logs, f"{h['name']}.log"))
+            finally:
+                with cv:
+                    budget["free"] += need
+                    cv.notify_all()
             log(f"[{prop}] {h['name']}: {r['outcome']}  ({r['wall_s']}s, {r['checks_total']} checks, "
                 f"{r['steps']} steps, {r['sat_variables']} vars)")
             return r
